@@ -282,6 +282,40 @@ def check_half_precision(ctx, ns, path, N, rng):
             ctx.close(nm + "_float16_round_trip", back, arr.astype(back.dtype), 1e-4 * float(np.abs(arr).max()), nm + ":half_precision_samples:round_trip", wit)
 
 
+def check_structured_spectra(ctx, ns, path, N, rng):
+    """Spectra with exact symmetries (bitwise Hermitian about the centre sample, with a complex sample at -Nyquist for even N;
+    purely real; purely imaginary; exactly anti-Hermitian): the inverse transforms are still the exact inverse of the forward ones."""
+    c = N // 2                                            # centre (zero-frequency) sample
+    for cls in ("hermitian_complex_nyquist", "anti_hermitian", "real", "imaginary"):
+        X = rng.standard_normal(N) + 1j * rng.standard_normal(N)
+        for k in range(1, N - c):
+            if c - k >= 0:
+                X[c + k] = np.conj(X[c - k]) if cls == "hermitian_complex_nyquist" else (-np.conj(X[c - k]) if cls == "anti_hermitian" else X[c + k])
+        if cls == "hermitian_complex_nyquist":
+            X[c] = X[c].real                              # DC real; for even N sample 0 (-Nyquist) has no partner and stays complex
+        elif cls == "anti_hermitian":
+            X[c] = 1j * X[c].imag
+        elif cls == "real":
+            X = X.real + 0j
+        elif cls == "imaginary":
+            X = 1j * X.imag
+        d = float(10 ** rng.uniform(-2, 2))
+        wit = {"path": path, "N": N, "spectrum_class": cls, "delta_f": d}
+        ctx.case("structured_spectrum", key=(path, N, cls), nontrivial=True, sample=wit)
+        sc = float(np.abs(X).max())
+        x = ns.ift(X, d)
+        back = ns.ft(x, 1.0 / (N * d))
+        ctx.close("ft_ift_structured_spectrum", back, X, 1e-12 * sc * N, "ift:inverse_pair:spectrum_with_exact_symmetry", wit, scale=sc)
+        X2 = np.outer(X, np.conj(X[::-1]) if cls == "hermitian_complex_nyquist" else X)
+        x2 = ns.ift2(X2, d)
+        back2 = ns.ft2(x2, 1.0 / (N * d))
+        sc2 = float(np.abs(X2).max())
+        ctx.close("ft2_ift2_structured_spectrum", back2, X2, 1e-12 * sc2 * N * N, "ift2:inverse_pair:spectrum_with_exact_symmetry", wit, scale=sc2)
+        # linearity across the symmetry class boundary
+        Y = rng.standard_normal(N) + 1j * rng.standard_normal(N)
+        ctx.close("ift_linearity_structured", ns.ift(X + Y, d), x + ns.ift(Y, d), 1e-12 * (sc + float(np.abs(Y).max())) * d * N, "ift:linearity:spectrum_with_exact_symmetry", wit)
+
+
 def check_spacing_objects(ctx, ns, path, N, rng):
     """The spacings handed over as 0-d / 1-element arrays and used for several calls: every call is the same inverse pair."""
     for mk, nmk in ((lambda v: np.asarray(v), "0d_array"), (lambda v: np.array([v]), "1_element_array"), (lambda v: np.float32(v), "float32_scalar")):
@@ -362,5 +396,7 @@ def run(ctx, spec):
                 if N in (7, 8, 16, 33) and rep == 0:
                     check_spacing_objects(ctx, ns, path, N, rng)
                     check_half_precision(ctx, ns, path, N, rng)
+                if N >= 2 and rep == 0 and (N <= 12 or N in (16, 33, 64)):
+                    check_structured_spectra(ctx, ns, path, N, rng)
         if spec["shard"] in (3, 11) and rep == 0:
             check_deep_stack(ctx, mod_ns if spec["shard"] == 3 else top_ns, "module" if spec["shard"] == 3 else "top_level", rng)
